@@ -1,2 +1,281 @@
-(* C08 - proofs (under construction) *)
-From TT Require Import Lib.Base Model.Adapters Spec.C08 Corr.C08.
+(* C08 - proofs.  Part 1: the boolean equalities decide equality; the comparison of
+   observations decides equality of their abstractions. *)
+From Coq Require Import Permutation.
+From TT Require Import Lib.Base Lib.Sort Model.Adapters Spec.C08 Corr.C08.
+
+(* ================= boolean equalities ================= *)
+Lemma nat_eqb_spec a b : (a =? b) = true <-> a = b.
+Proof. apply Nat.eqb_eq. Qed.
+
+Lemma text_eqb_spec a b : text_eqb a b = true <-> a = b.
+Proof. apply list_eqb_spec. exact nat_eqb_spec. Qed.
+
+Lemma errv_eqb_spec a b : errv_eqb a b = true <-> a = b.
+Proof.
+  destruct a, b; simpl; split; intro H; try discriminate; try reflexivity.
+  - apply Nat.eqb_eq in H. congruence.
+  - injection H as ->. apply Nat.eqb_refl.
+  - apply text_eqb_spec in H. congruence.
+  - injection H as ->. apply text_eqb_spec. reflexivity.
+Qed.
+
+Lemma dkind_eqb_spec a b : dkind_eqb a b = true <-> a = b.
+Proof.
+  destruct a, b; simpl; split; intro H; try discriminate.
+  - apply text_eqb_spec in H. congruence.
+  - injection H as ->. apply text_eqb_spec. reflexivity.
+  - apply (list_eqb_spec _ nat_eqb_spec) in H. congruence.
+  - injection H as ->. apply (list_eqb_spec _ nat_eqb_spec). reflexivity.
+  - apply errv_eqb_spec in H. congruence.
+  - injection H as ->. apply errv_eqb_spec. reflexivity.
+Qed.
+
+Lemma detail_eqb_spec a b : detail_eqb a b = true <-> a = b.
+Proof. apply pair_eqb_spec. exact nat_eqb_spec. exact dkind_eqb_spec. Qed.
+
+Lemma details_eqb_spec a b : details_eqb a b = true <-> a = b.
+Proof. apply list_eqb_spec. exact detail_eqb_spec. Qed.
+
+Lemma tkind_eqb_spec a b : tkind_eqb a b = true <-> a = b.
+Proof. destruct a, b; simpl; split; congruence. Qed.
+
+Lemma test_eqb_spec a b : test_eqb a b = true <-> a = b.
+Proof.
+  destruct a as [i k], b as [j l]; unfold test_eqb; simpl; split; intro H.
+  - apply andb_true_iff in H as [H1 H2]. apply Nat.eqb_eq in H1. apply tkind_eqb_spec in H2. congruence.
+  - injection H as -> ->. rewrite Nat.eqb_refl. apply tkind_eqb_spec. reflexivity.
+Qed.
+
+Lemma ekind_eqb_spec a b : ekind_eqb a b = true <-> a = b.
+Proof. destruct a, b; simpl; split; congruence. Qed.
+Lemma okind_eqb_spec a b : okind_eqb a b = true <-> a = b.
+Proof. destruct a, b; simpl; split; congruence. Qed.
+Lemma exn_eqb_spec a b : exn_eqb a b = true <-> a = b.
+Proof. destruct a, b; simpl; split; congruence. Qed.
+
+Lemma sum_eqb_spec {A B} (ea : A -> A -> bool) (eb : B -> B -> bool) :
+  (forall a b, ea a b = true <-> a = b) -> (forall a b, eb a b = true <-> a = b) ->
+  forall x y, sum_eqb ea eb x y = true <-> x = y.
+Proof.
+  intros HA HB [a|b] [a'|b']; simpl; split; intro H; try discriminate.
+  - apply HA in H. congruence.
+  - injection H as ->. apply HA. reflexivity.
+  - apply HB in H. congruence.
+  - injection H as ->. apply HB. reflexivity.
+Qed.
+
+Lemma tags_eqb_spec a b : tags_eqb a b = true <-> a = b.
+Proof. apply list_eqb_spec. exact nat_eqb_spec. Qed.
+
+Lemma text_eqb_refl a : text_eqb a a = true. Proof. apply text_eqb_spec; reflexivity. Qed.
+Lemma errv_eqb_refl a : errv_eqb a a = true. Proof. apply errv_eqb_spec; reflexivity. Qed.
+Lemma details_eqb_refl a : details_eqb a a = true. Proof. apply details_eqb_spec; reflexivity. Qed.
+Lemma test_eqb_refl a : test_eqb a a = true. Proof. apply test_eqb_spec; reflexivity. Qed.
+Lemma ekind_eqb_refl a : ekind_eqb a a = true. Proof. apply ekind_eqb_spec; reflexivity. Qed.
+Lemma okind_eqb_refl a : okind_eqb a a = true. Proof. apply okind_eqb_spec; reflexivity. Qed.
+Lemma tags_eqb_refl a : tags_eqb a a = true. Proof. apply tags_eqb_spec; reflexivity. Qed.
+Lemma opt_nat_eqb_refl a : option_eqb Nat.eqb a a = true.
+Proof. apply (option_eqb_spec _ nat_eqb_spec); reflexivity. Qed.
+Lemma opt_details_eqb_refl a : option_eqb details_eqb a a = true.
+Proof. apply (option_eqb_spec _ details_eqb_spec); reflexivity. Qed.
+
+Ltac split_andb H :=
+  repeat match type of H with
+         | (_ && _) = true => let H1 := fresh H in apply andb_true_iff in H as [H H1]
+         end.
+
+Lemma call_eqb_spec a b : call_eqb a b = true <-> a = b.
+Proof.
+  split.
+  - destruct a, b; simpl; intro H; try discriminate; try reflexivity; split_andb H.
+    + apply tags_eqb_spec in H, H0. congruence.
+    + apply Nat.eqb_eq in H. congruence.
+    + apply Nat.eqb_eq in H, H0. congruence.
+    + apply test_eqb_spec in H. congruence.
+    + apply test_eqb_spec in H. congruence.
+    + apply ekind_eqb_spec in H. apply test_eqb_spec in H1.
+      apply (sum_eqb_spec _ _ errv_eqb_spec details_eqb_spec) in H0. congruence.
+    + apply test_eqb_spec in H. apply (sum_eqb_spec _ _ text_eqb_spec details_eqb_spec) in H0. congruence.
+    + apply okind_eqb_spec in H. apply test_eqb_spec in H1.
+      apply (option_eqb_spec _ details_eqb_spec) in H0. congruence.
+  - intros <-. destruct a; simpl;
+      rewrite ?tags_eqb_refl, ?Nat.eqb_refl, ?test_eqb_refl, ?ekind_eqb_refl, ?okind_eqb_refl; simpl;
+      try reflexivity.
+    + apply (sum_eqb_spec _ _ errv_eqb_spec details_eqb_spec). reflexivity.
+    + apply (sum_eqb_spec _ _ text_eqb_spec details_eqb_spec). reflexivity.
+    + apply (option_eqb_spec _ details_eqb_spec). reflexivity.
+Qed.
+
+Lemma cb_eqb_spec a b : cb_eqb a b = true <-> a = b.
+Proof.
+  destruct a as [t1 s1 a1 z1 g1 d1], b as [t2 s2 a2 z2 g2 d2]; unfold cb_eqb; simpl; split; intro H.
+  - split_andb H.
+    apply test_eqb_spec in H. apply (option_eqb_spec _ nat_eqb_spec) in H4, H3, H2.
+    apply tags_eqb_spec in H1. apply (option_eqb_spec _ details_eqb_spec) in H0. congruence.
+  - injection H as -> -> -> -> -> ->.
+    rewrite test_eqb_refl, !opt_nat_eqb_refl, tags_eqb_refl, opt_details_eqb_refl. reflexivity.
+Qed.
+
+Lemma leaf_obs_eqb_spec a b : leaf_obs_eqb a b = true <-> a = b.
+Proof.
+  destruct a, b; simpl; split; intro H; try discriminate.
+  - apply (list_eqb_spec _ call_eqb_spec) in H. congruence.
+  - injection H as ->. apply (list_eqb_spec _ call_eqb_spec). reflexivity.
+  - apply (list_eqb_spec _ cb_eqb_spec) in H. congruence.
+  - injection H as ->. apply (list_eqb_spec _ cb_eqb_spec). reflexivity.
+Qed.
+
+Lemma raw_eqb_spec a b : raw_eqb a b = true <-> a = b.
+Proof.
+  destruct a as [l1 r1], b as [l2 r2]; unfold raw_eqb; simpl; split; intro H.
+  - apply andb_true_iff in H as [H1 H2].
+    apply (list_eqb_spec _ leaf_obs_eqb_spec) in H1.
+    apply (list_eqb_spec _ (pair_eqb_spec _ _ nat_eqb_spec exn_eqb_spec)) in H2. congruence.
+  - injection H as -> ->. apply andb_true_iff; split.
+    + apply (list_eqb_spec _ leaf_obs_eqb_spec). reflexivity.
+    + apply (list_eqb_spec _ (pair_eqb_spec _ _ nat_eqb_spec exn_eqb_spec)). reflexivity.
+Qed.
+
+Lemma obs_eqb_spec a b : obs_eqb a b = true <-> alpha a = alpha b.
+Proof. unfold obs_eqb. apply raw_eqb_spec. Qed.
+
+(* ================= substrings and _details_to_str ================= *)
+Lemma prefixb_app p b : prefixb p (p ++ b) = true.
+Proof. induction p as [|x p IH]; simpl; [reflexivity|]. rewrite Nat.eqb_refl. exact IH. Qed.
+
+Lemma substringb_intro p a b : substringb p (a ++ p ++ b) = true.
+Proof.
+  induction a as [|x a IH]; simpl.
+  - destruct (p ++ b) eqn:E; simpl.
+    + destruct p; [reflexivity|discriminate].
+    + rewrite <- E. rewrite prefixb_app. reflexivity.
+  - rewrite IH. apply orb_true_r.
+Qed.
+
+Lemma prefixb_sound p s : prefixb p s = true -> exists b, s = p ++ b.
+Proof.
+  revert s; induction p as [|x p IH]; intros s H; simpl in *.
+  - exists s; reflexivity.
+  - destruct s as [|y s]; [discriminate|].
+    apply andb_true_iff in H as [H1 H2]. apply Nat.eqb_eq in H1; subst y.
+    destruct (IH _ H2) as [b ->]. exists b; reflexivity.
+Qed.
+
+Lemma substringb_sound p s : substringb p s = true -> Substring p s.
+Proof.
+  induction s as [|y s IH]; simpl; intro H.
+  - rewrite orb_false_r in H. destruct (prefixb_sound _ _ H) as [b E]. exists [], b. exact E.
+  - apply orb_true_iff in H as [H|H].
+    + destruct (prefixb_sound _ _ H) as [b E]. exists [], b. exact E.
+    + destruct (IH H) as (a & b & ->). exists (y :: a), b. reflexivity.
+Qed.
+
+Lemma substringb_complete p s : Substring p s -> substringb p s = true.
+Proof. intros (a & b & ->). apply substringb_intro. Qed.
+
+Lemma Substring_refl p : Substring p p.
+Proof. exists [], []. simpl. rewrite app_nil_r. reflexivity. Qed.
+
+Lemma Substring_wrap p x a b : Substring p x -> Substring p (a ++ x ++ b).
+Proof.
+  intros (u & v & ->). exists (a ++ u), (v ++ b). rewrite <- !app_assoc. reflexivity.
+Qed.
+
+Lemma Substring_app_r p x a : Substring p x -> Substring p (a ++ x).
+Proof. intro H. rewrite <- (app_nil_r x). apply Substring_wrap. exact H. Qed.
+
+Lemma Substring_app_l p x b : Substring p x -> Substring p (x ++ b).
+Proof. intro H. apply (Substring_wrap p x [] b H). Qed.
+
+Lemma Substring_join p x sep l : In x l -> Substring p x -> Substring p (join sep l).
+Proof.
+  induction l as [|y l IH]; intros Hin Hs; [destruct Hin|].
+  destruct l as [|z l].
+  - destruct Hin as [->|[]]. exact Hs.
+  - change (join sep (y :: z :: l)) with (y ++ sep ++ join sep (z :: l)).
+    destruct Hin as [->|Hin].
+    + apply Substring_app_l. exact Hs.
+    + apply Substring_app_r. apply Substring_app_r. apply IH; assumption.
+Qed.
+
+Lemma format_attachment_contains n t : Substring t (format_attachment n t).
+Proof.
+  unfold format_attachment. destruct (existsb (Nat.eqb nl) t).
+  - exists (name_text n ++ t_open ++ [nl]), ([nl] ++ t_close ++ [nl]). rewrite <- !app_assoc. reflexivity.
+  - exists (name_text n ++ t_open), t_close. rewrite <- !app_assoc. reflexivity.
+Qed.
+
+Lemma nodupb_NoDup l : nodupb l = true -> NoDup l.
+Proof.
+  induction l as [|x l IH]; simpl; intro H; [constructor|].
+  apply andb_true_iff in H as [H1 H2]. constructor; [|apply IH; exact H2].
+  intro Hin. apply negb_true_iff in H1.
+  assert (existsb (Nat.eqb x) l = true); [|congruence].
+  apply existsb_exists. exists x. split; [exact Hin|apply Nat.eqb_refl].
+Qed.
+
+(* what the scan of _details_to_str keeps of a text attachment that is not blank *)
+Lemma d2s_scan_keeps special ds n t :
+  NoDup (map fst ds) -> In (n, DText t) ds -> strip t <> [] ->
+  let '(bin, emp, txt, sp) := d2s_scan special ds in
+  if option_eqb Nat.eqb (Some n) special
+  then sp = Some (strip t ++ [nl])
+  else In (format_attachment n (strip t)) txt.
+Proof.
+  induction ds as [|[m k] r IH]; intros Hnd Hin Hne; [destruct Hin|].
+  simpl in Hnd. inversion Hnd as [|? ? Hnotin Hnd']; subst.
+  simpl. destruct (d2s_scan special r) as [[[bin emp] txt] sp] eqn:E.
+  destruct Hin as [Heq|Hin].
+  - injection Heq as -> ->. simpl.
+    destruct (strip t) eqn:Es; [congruence|]. rewrite <- Es.
+    destruct (option_eqb Nat.eqb (Some n) special); [reflexivity|left; reflexivity].
+  - specialize (IH Hnd' Hin Hne).
+    assert (Hmn : m <> n).
+    { intro; subst m. apply Hnotin. change n with (fst (n, DText t)). apply in_map. exact Hin. }
+    destruct (dtext k) as [tk|]; [|exact IH].
+    destruct (strip tk) eqn:Etk; [exact IH|]. rewrite <- Etk.
+    destruct (option_eqb Nat.eqb (Some m) special) eqn:Em.
+    + destruct (option_eqb Nat.eqb (Some n) special) eqn:En; [|exact IH].
+      exfalso. destruct special as [s|]; simpl in Em, En; [|discriminate].
+      apply Nat.eqb_eq in Em, En. congruence.
+    + destruct (option_eqb Nat.eqb (Some n) special); [exact IH|right; exact IH].
+Qed.
+
+(* the text _details_to_str makes contains every text attachment that is not blank *)
+Lemma details_to_str_contains ds special :
+  NoDup (map fst ds) -> ContainsAll ds (details_to_str ds special).
+Proof.
+  intros Hnd n t Hin Hne. unfold details_to_str.
+  pose proof (isort_perm detail_leb ds) as Hp.
+  assert (Hnd' : NoDup (map fst (isort detail_leb ds))).
+  { eapply Permutation_NoDup; [apply Permutation_map; exact Hp|exact Hnd]. }
+  assert (Hin' : In (n, DText t) (isort detail_leb ds)) by (eapply Permutation_in; eassumption).
+  pose proof (d2s_scan_keeps special _ n t Hnd' Hin' Hne) as K.
+  destruct (d2s_scan special (isort detail_leb ds)) as [[[bin emp] txt] sp].
+  set (txt1 := if negb (is_nil txt) && negb (ends_nl (last txt [])) then txt ++ [[]] else txt).
+  set (txt2 := match sp with Some s => txt1 ++ [s] | None => txt1 end).
+  assert (H1 : forall x, In x txt -> In x txt2).
+  { intros x Hx. assert (In x txt1).
+    { unfold txt1. destruct (negb (is_nil txt) && negb (ends_nl (last txt []))); [apply in_or_app; left|]; exact Hx. }
+    unfold txt2. destruct sp; [apply in_or_app; left|]; assumption. }
+  assert (Hsub : exists x, In x txt2 /\ Substring (strip t) x).
+  { destruct (option_eqb Nat.eqb (Some n) special).
+    - subst sp. exists (strip t ++ [nl]). split.
+      + unfold txt2. apply in_or_app. right. left. reflexivity.
+      + apply Substring_app_l. apply Substring_refl.
+    - exists (format_attachment n (strip t)). split; [apply H1; exact K|apply format_attachment_contains]. }
+  destruct Hsub as (x & Hx & Hs).
+  do 3 apply Substring_app_r. eapply Substring_join; eassumption.
+Qed.
+
+Lemma contains_all_spec d s : contains_all d s = true <-> ContainsAll d s.
+Proof.
+  unfold contains_all, ContainsAll. rewrite forallb_forall. split.
+  - intros H n t Hin Hne. specialize (H _ Hin). simpl in H.
+    apply orb_true_iff in H as [H|H].
+    + destruct (strip t); [congruence|discriminate].
+    + apply substringb_sound. exact H.
+  - intros H [n k] Hin. simpl. destruct k as [t| |]; try reflexivity.
+    destruct (strip t) eqn:E; [reflexivity|]. rewrite <- E. simpl.
+    apply substringb_complete. apply H with n; [exact Hin|congruence].
+Qed.
